@@ -109,7 +109,22 @@ class ClassImpl:
         return self.Q(q).matrix
 
 
-IMPLS = {'base': BaseImpl(), 'class': ClassImpl()}
+class NarrowImpl(ClassImpl):
+    """Quaternion objects built from arrays of a narrow element type (what np.loadtxt(dtype=...), an image or a sensor driver
+    hands over); the values are whole numbers, exactly representable in every type used"""
+    def __init__(self, dtype):
+        self.dtype = dtype
+        self.name = 'class:' + np.dtype(dtype).name
+
+    def Q(self, q):
+        q = np.asarray(q, dtype=np.float64)
+        with np.errstate(all='ignore'):
+            fits = np.all(np.isfinite(q)) and np.max(np.abs(q)) < 3e4 and np.array_equal(q.astype(self.dtype).astype(np.float64), q)
+        return S().Quaternion(q.astype(self.dtype) if fits else q)     # (intermediate results that do not fit stay as they are)
+
+
+IMPLS = {'base': BaseImpl(), 'class': ClassImpl(), 'class:int32': NarrowImpl(np.int32), 'class:int16': NarrowImpl(np.int16), 'class:float32': NarrowImpl(np.float32), 'class:int8': NarrowImpl(np.int8)}
+NARROW_IDENT = ['assoc', 'norm_mult', 'conj_reverse', 'q_conjq', 'matrix_form', 'inner_dot']      # (no + / -: NumPy adds in the narrow type)
 IDENT = ['assoc', 'distrib_left', 'distrib_right', 'norm_mult', 'conj_reverse', 'q_conjq', 'pow', 'matrix_form', 'inner_dot',
          'dot_rate', 'dotb_rate', 'vvmul', 'sub_add']
 
@@ -391,7 +406,7 @@ def run_sym(ctx, p):
         return
     diff = np.atleast_1d(np.asarray(lhs, dtype=object) - np.asarray(rhs, dtype=object)).reshape(-1)
     nz = [sympy.expand(x) for x in diff]
-    bad = [str(x)[:200] for x in nz if x != 0]
+    bad = [str(x)[:200] for x in nz if not (x == 0 or getattr(x, 'is_zero', False))]      # (a floating-point 0.0 is zero too)
     ctx.judge('symbolic', not bad, dict(sig, kind='nonzero_normal_form'),
               lambda: '%s (%s impl): lhs - rhs does not expand to 0: %s' % (ident, implname, bad[:3]))
     ctx.extra.setdefault('symbolic_identities', {})['%s/%s' % (ident, implname)] = 1 if not bad else 0
@@ -441,6 +456,17 @@ def run(ctx):
         p = dict(ident=ident, impl=['base', 'class'][rng.integers(2)], a=quat(rng), b=quat(rng), c=quat(rng), n=int(rng.integers(-6, 7)))
         if ident == 'pow':       # keep a^n representable
             p['a'] = gen.vec(rng, 4, 1e-3, 1e3)
+        if ident in NARROW_IDENT and rng.random() < 0.15:
+            # whole-number components large enough for products to leave the narrow type (int16: > 181, int32: > 46340 / 4)
+            hi = {'class:int16': 3e4, 'class:int32': 3e4, 'class:float32': 3e4}
+            p['impl'] = ['class:int32', 'class:int16', 'class:float32'][rng.integers(3)]
+            for k_ in 'abc':
+                p[k_] = np.round(gen.vec(rng, 4, 2e3, hi[p['impl']] * 0.999))
+        if p['impl'] in ('base', 'class') and ident != 'pow' and ident not in ('dot_rate', 'dotb_rate') and rng.random() < 0.06:
+            # small whole numbers in an int8 array: sums and differences leave the type (100 + 100, -100 - 100)
+            p['impl'] = 'class:int8'
+            for k_ in 'abc':
+                p[k_] = np.round(gen.vec(rng, 4, 20, 127)).clip(-127, 127)
         drive(RUNNERS, ctx, 'num', p)
         if ctx.ncases % 3001 == 1:
             ctx.sample(dict(case='num', **p))
@@ -453,7 +479,9 @@ def run(ctx):
             if rng.random() < 0.1:       # vector part far smaller than the scalar part (all components still within 1e-6 .. 1e6)
                 sc_ = gen.logu(rng, 1e1, 1e6)
                 q = np.r_[gen.sign(rng) * sc_, gen.unit_axis(rng) * gen.logu(rng, 1e-6, sc_ * 1e-6)]
-            if r < 0.3:
+            if r < 0.06:       # scalar part exactly zero, of either sign (-1 * Pure(v) has s = -0.0)
+                q[0] = [0.0, -0.0][rng.integers(2)]
+            elif r < 0.3:
                 q[0] = gen.sign(rng) * gen.logu(rng, 1e-6, 1e-1)
             elif r < 0.6:      # unit quaternion receiver, both hemispheres, rotation angle over (0, 2 pi)
                 cls = 'UnitQuaternion'
